@@ -31,6 +31,9 @@ func (pkd PubKeyDecorator) AnteHandle(ctx sdk.Context, tx sdk.Tx, simulate bool,
 	if err != nil {
 		return ctx, err
 	}
+	if len(pubkeys) != len(signers) {
+		return ctx, sdkerrors.ErrUnauthorized.Wrapf("wrong number of signer infos; expected %d, got %d", len(signers), len(pubkeys))
+	}
 	for i := range pubkeys {
 		if err = checkPubKeyDisabled(ctx, pkd.ak, signers[i]); err != nil {
 			return ctx, err
